@@ -49,6 +49,11 @@ func (mi *MessageInfo) initOneofFieldCoders(od protoreflect.OneofDescriptor, si 
 		oneofFields[ot] = &cf
 		if cf.funcs.isInit != nil {
 			needIsInit = true
+			// The unmarshal loops consult the isInit slot of the field they
+			// decoded, so every member that can hold an uninitialized message
+			// needs a non-nil slot. The actual check is dispatched through the
+			// first member's slot, set below.
+			mi.coderFields[num].funcs.isInit = func(pointer, *coderFieldInfo) error { return nil }
 		}
 		mi.coderFields[num].funcs.unmarshal = func(b []byte, p pointer, wtyp protowire.Type, f *coderFieldInfo, opts unmarshalOptions) (unmarshalOutput, error) {
 			var vw reflect.Value         // pointer to wrapper type
